@@ -267,46 +267,47 @@ func unmarshalJsonFile(path string, i interface{}) (err error) {
 	return
 }
 
-// tmpName returns the name of the temporary file used to write path. It
-// starts with a dot so that it is never taken for an object file.
-func tmpName(path string) string {
-	return filepath.Join(filepath.Dir(path), fmt.Sprintf(".%s.tmp", filepath.Base(path)))
+// tmpFile creates the temporary file used to write path. Its name starts
+// with a dot so that it is never taken for an object file and is unique
+// so that concurrent writers of path do not write the same temporary file.
+func tmpFile(path string) (*os.File, error) {
+	return os.CreateTemp(filepath.Dir(path), fmt.Sprintf(".%s.*.tmp", filepath.Base(path)))
 }
 
 // writeFileAtomic writes data to a temporary file which then replaces path,
 // so that path always contains either its previous or its new content
 func writeFileAtomic(path string, data []byte, perms fs.FileMode) (err error) {
-	tmp := tmpName(path)
-	if err = ioutil.WriteFile(tmp, data, perms); err != nil {
-		os.Remove(tmp)
-		return
-	}
-	return os.Rename(tmp, path)
+	return writeReader(path, bytes.NewBuffer(data), perms, false)
 }
 
 // writeReader writes r to a temporary file which then replaces path, so that
 // path always contains either its previous or its new content
 func writeReader(path string, r io.Reader, perms fs.FileMode, compress bool) (err error) {
+	var tmp *os.File
+
 	if compress && !strings.HasSuffix(path, compressedExtension) {
 		path = fmt.Sprintf("%s%s", path, compressedExtension)
 	}
 
-	tmp := tmpName(path)
-	if err = writeReaderTo(tmp, r, perms, compress); err != nil {
-		os.Remove(tmp)
+	if tmp, err = tmpFile(path); err != nil {
 		return
 	}
 
-	return os.Rename(tmp, path)
+	if err = writeReaderTo(tmp, r, compress); err == nil {
+		err = os.Chmod(tmp.Name(), perms)
+	}
+
+	if err != nil {
+		os.Remove(tmp.Name())
+		return
+	}
+
+	return os.Rename(tmp.Name(), path)
 }
 
-func writeReaderTo(path string, r io.Reader, perms fs.FileMode, compress bool) (err error) {
-	var out *os.File
+func writeReaderTo(out *os.File, r io.Reader, compress bool) (err error) {
 	var w io.WriteCloser
 
-	if out, err = os.OpenFile(path, os.O_CREATE|os.O_TRUNC|os.O_RDWR, perms); err != nil {
-		return
-	}
 	defer out.Close()
 
 	// default value for writer
